@@ -260,21 +260,74 @@ func ScaleDesc(prefix, unit, suffix string, n int) string {
 	return "rep|" + hex.EncodeToString([]byte(prefix)) + "|" + hex.EncodeToString([]byte(unit)) + "|" + hex.EncodeToString([]byte(suffix)) + "|" + strconv.Itoa(n)
 }
 
+// Markers understood by Scale:
+//
+//	CounterMark inside unit: replaced by the repetition index in base 36, so
+//	  that every repetition is distinct (non-repeating content);
+//	TailMark + tailUnit + TailMark at the start of suffix: the body is
+//	  unit^(n/2) followed by tailUnit^(n/2) (two different repeated units).
+const (
+	CounterMark = "\xfe\xfd"
+	TailMark    = "\xfe\xfc"
+)
+
 func Scale(prefix, unit, suffix string, n int) string {
 	var b strings.Builder
-	b.Grow(n + len(prefix) + len(suffix) + len(unit))
+	b.Grow(n + len(prefix) + len(suffix) + len(unit) + 16)
 	b.WriteString(prefix)
-	if len(unit) > 0 {
-		reps := n / len(unit)
-		if reps < 1 {
-			reps = 1
+	tail := ""
+	if strings.HasPrefix(suffix, TailMark) {
+		rest := suffix[len(TailMark):]
+		if k := strings.Index(rest, TailMark); k >= 0 {
+			tail, suffix = rest[:k], rest[k+len(TailMark):]
 		}
-		for i := 0; i < reps; i++ {
-			b.WriteString(unit)
+	}
+	budget := n
+	if tail != "" {
+		budget = n / 2
+	}
+	if len(unit) > 0 {
+		if strings.Contains(unit, CounterMark) {
+			p := strings.SplitN(unit, CounterMark, 2)
+			start := b.Len()
+			for i := 0; b.Len()-start < budget || i == 0; i++ {
+				b.WriteString(p[0])
+				b.WriteString(strconv.FormatInt(int64(i), 36))
+				b.WriteString(p[1])
+			}
+		} else {
+			reps := budget / len(unit)
+			if reps < 1 {
+				reps = 1
+			}
+			for i := 0; i < reps; i++ {
+				b.WriteString(unit)
+			}
+		}
+	}
+	if tail != "" {
+		for i := 0; i < (n-budget)/len(tail); i++ {
+			b.WriteString(tail)
 		}
 	}
 	b.WriteString(suffix)
 	return b.String()
+}
+
+// ParseScaleDesc decodes a ScaleDesc.
+func ParseScaleDesc(desc string) (prefix, unit, suffix string, n int, ok bool) {
+	p := strings.Split(desc, "|")
+	if len(p) != 5 || p[0] != "rep" {
+		return
+	}
+	pre, e1 := hex.DecodeString(p[1])
+	u, e2 := hex.DecodeString(p[2])
+	suf, e3 := hex.DecodeString(p[3])
+	nn, e4 := strconv.Atoi(p[4])
+	if e1 != nil || e2 != nil || e3 != nil || e4 != nil {
+		return
+	}
+	return string(pre), string(u), string(suf), nn, true
 }
 
 // Expand regenerates an input from its description.
